@@ -48,6 +48,15 @@ def coq_deps(vfile):
                 if os.path.exists(os.path.join(COQ, mod + ".v")): todo.append(mod + ".v")
     return seen
 
+def coq_prepare():
+    """_CoqProject lists every .v file of coq/ (generated, so that property files can be added independently)"""
+    vs = sorted(f for f in os.listdir(COQ) if f.endswith(".v"))
+    txt = "-Q . V\n" + "\n".join(vs) + "\n"
+    cp = os.path.join(COQ, "_CoqProject")
+    if not os.path.exists(cp) or open(cp).read() != txt or not os.path.exists(os.path.join(COQ, "Makefile")):
+        open(cp, "w").write(txt)
+        sh("coq_makefile -f _CoqProject -o Makefile", cwd=COQ)
+
 def coq_check(pid, props_files, extract_file):
     """Full .vo build of the development, then re-check of the property files with their
     Print Assumptions output captured.  Returns a dict for the evidence."""
@@ -55,8 +64,7 @@ def coq_check(pid, props_files, extract_file):
     with open(os.path.join(COQ, ".lock"), "w") as lock:
         import fcntl
         fcntl.flock(lock, fcntl.LOCK_EX)
-        if not os.path.exists(os.path.join(COQ, "Makefile")):
-            sh("coq_makefile -f _CoqProject -o Makefile", cwd=COQ)
+        coq_prepare()
         rc, out = sh("timeout 1500 make -k -j16", cwd=COQ)
         res["make_rc"] = rc
         if rc != 0:
@@ -225,7 +233,7 @@ def main(prop, argv):
         cases = [(c, "replay") for c in rp["cases"]]
     else:
         rng = random.Random(seed * 1000003 + (17 if tier == "thorough" else 0))
-        cases = prop.gen(rng, tier)
+        cases = prop.cases(rng, tier)
         if hasattr(prop, "exhaustive_flag"): stats["exhaustive"] = bool(prop.exhaustive_flag(tier))
 
     for flavour in flavours:
